@@ -93,6 +93,17 @@ func (x *Exec) interceptIter(st *State, name string, args []*Term) ([]Outcome, b
 	c := x.c
 	ret := func(v *Term) ([]Outcome, bool) { return []Outcome{{st: st, kind: ORet, val: v}}, true }
 	switch name {
+	case "Visited", "VisitedCount":
+		cell := x.rangeOfMap[args[0]]
+		if cell == nil {
+			return abortOut(st, "%s: no active range loop over this map", name), true
+		}
+		ri := x.ranges[cell]
+		cur := x.load(st, cell, c.rangeSort(ri.mt))
+		if name == "VisitedCount" {
+			return ret(c.Sel(cur, 1))
+		}
+		return ret(c.Select(c.Sel(cur, 0), args[1]))
 	case "Assume":
 		if !x.assume(st, args[0]) {
 			return nil, true
@@ -113,7 +124,7 @@ func (x *Exec) interceptIter(st *State, name string, args []*Term) ([]Outcome, b
 			}
 			v := c.Fresh("havoc_"+x.cellName[id], old.Sort)
 			st.cells[id] = v
-			if t := x.cellType[id]; t != nil {
+			if t := x.cellType[id]; t != nil && c.SortOf(t) == v.Sort {
 				x.assumeFact(st, x.resultInv(t, v))
 			}
 		}
@@ -136,6 +147,15 @@ func (x *Exec) interceptIter(st *State, name string, args []*Term) ([]Outcome, b
 			}
 		}
 		return abortOut(st, "Cell: no captured variable %q", nameT.Name), true
+	case "IterPosAtEntry":
+		src := x.sourceOf(args[0])
+		if src == nil || x.curLoop == nil {
+			return abortOut(st, "IterPosAtEntry: only inside a loop invariant over an input iterator"), true
+		}
+		if v, ok := x.curLoop.entryPos[src.id]; ok {
+			return ret(v)
+		}
+		return abortOut(st, "IterPosAtEntry: no entry position"), true
 	case "IterLen", "IterPos", "IterAt":
 		src := x.sourceOf(args[0])
 		if src == nil {
